@@ -330,6 +330,11 @@ func decoders16(f *ssa.Function) (sites []be16Site, vals []ssa.Value) {
 
 func runC12(r *Report) {
 	// delegating Read/Write wrappers on the client data path are transparent (R-C12-1)
+	for _, pk := range []string{"internal/utils/iocopy", "internal/client/mapping"} {
+		for _, f := range r.P.FuncsIn(pk) {
+			checkSyncPoolOwnership(r, "R-C12-1", f)
+		}
+	}
 	checkDelegatingWrappers(r, "R-C12-1", "internal/utils/iocopy", "internal/client", "internal/client/mapping", "internal/client/transport", "internal/client/tunnel", "internal/client/socks5", "internal/stream")
 	const pkg = "internal/utils/iocopy"
 	bidi := r.need("R-C12-1", pkg, "Bidirectional")
